@@ -250,6 +250,52 @@ def run(ck):
         ck.nontriv(("trace", k, burst, vs0, tuple(steps)))
     ck.count("trace_scripts", len(tscripts))
     ck.extra["disagreements"] = ndiff
+    # ---- client, trace level: the k configured when a connection is made is the one in force on it -- also when the application
+    #      changed the APCI parameters after an earlier connection (real client thread, gated; public API only)
+    from props import c03 as _c03
+    hcli = _c03.harnesses()[1]
+    cscripts, cmeta = [], {}
+    A = apci.asdu(45, 6, 1, bytes([1, 0, 0, 1])).hex()
+    for i in range(12 if quick else 120):
+        ks = [rng.choice([1, 2, 3, 5, 12, 20]) for _ in range(rng.range(1, 3))]
+        lines = []
+        for j, k in enumerate(ks):
+            lines += ["cfg k=%d w=8" % k, "connect", "startdt", "step", "rx " + apci.STARTDT_CON.hex(), "step"]
+            lines += ["send " + A] * (k + rng.range(1, 4)) + ["step"]
+            lines += ["rxs -1", "step"] + ["send " + A] * 3 + ["step", "rxs", "step", "send " + A, "step", "close"]
+        cscripts.append(("ck%d" % i, lines)); cmeta["ck%d" % i] = ks
+    rcl = runner.run_batch(hcli, cscripts)
+    for sid, lines in cscripts:
+        ks = cmeta[sid]
+        o = rcl.get(sid, dict(out=[], crash=None))
+        ck.evaluations += 1
+        if o["crash"]:
+            ck.fail("input", "crash:%s:%s" % (o["crash"]["kind"], o["crash"]["site"]), "client aborted: %s at %s" % (o["crash"]["kind"], o["crash"]["site"]), {"script": lines, "stderr": o["crash"]["text"]})
+            continue
+        # walk script and trace together: the harness prints `.` after every command
+        blocks, cur = [], []
+        for l in o["out"]:
+            if l == ".":
+                blocks.append(cur); cur = []
+            else:
+                cur.append(l)
+        conn, sent, acked, seen = -1, 0, 0, 0
+        for cmd, blk in zip(lines, blocks):
+            w = cmd.split()
+            if w[0] == "connect":
+                conn += 1; sent = acked = 0
+            for l in blk:
+                if l.startswith("raw out "):
+                    f = bytes.fromhex(l.split()[2])
+                    if len(f) >= 6 and f[2] & 1 == 0:
+                        sent += 1
+                        if conn >= 0 and sent - acked > ks[conn]:
+                            ck.fail("input", "oracle:kbuf:client-configured-k", "client: %d I-frames in flight on a connection made with k=%d (parameters %s over successive connections)" % (sent - acked, ks[conn], ks),
+                                    {"script": lines, "role": "client-trace", "observed": blk[-3:]})
+            if w[0] == "rxs":   # the harness' peer acknowledges what it has seen (minus |d|)
+                acked = max(acked, sent + (int(w[1]) if len(w) > 1 else 0))
+        ck.nontriv(("client-k", tuple(ks)))
+    ck.count("client_k_scripts", len(cscripts))
     ck.extra["exhaustive"] = not quick
     ck.notes.append("client 'send refused while full' at API level is exercised by the C03 client harness")
 
